@@ -190,7 +190,10 @@ OkV == V("ok", "ok")
 CostVerdict(t, m) ==
     IF ~MetricApplicable(t, m) THEN OkV                    \* documented rejection: nothing is required
     ELSE IF ~t.cost_ok[m] THEN V("bad", "C05.cost " \o m \o ": get_cost raised / is not finite on a model the metric supports")
-    ELSE IF ~t.cost2_ok[m] \/ Abs(t.cost2[m] - t.cost[m]) > 1
+    ELSE IF ~t.cost_rep[m]
+         THEN V("bad", "C05.cost " \o m \o ": the value get_cost returned is not representable (not finite, or >= 2^31 / 100) - the exact cost of the assignment is "
+                           \o (IF m = "mpic_latency" THEN Str(ExactTotalMilli(t, m)) \o "/1000" ELSE Str(ExactTotal(t, m))))
+    ELSE IF ~t.cost2_ok[m] \/ ~t.cost2_rep[m] \/ Abs(t.cost2[m] - t.cost[m]) > 1
          THEN V("bad", "C05.order " \o m \o ": " \o Str(t.cost[m]) \o "/100 when read first, " \o Str(t.cost2[m])
                            \o "/100 when read again after the other metrics")
     ELSE IF m = "mpic_latency"
@@ -255,6 +258,9 @@ Check05(t) ==
     ELSE IF MissingRecs(t) # {} THEN "C05.convert node " \o Str(Least(MissingRecs(t))) \o ": no searchable module was created for this quantisation point"
     ELSE IF ExtraRecs(t) # {} THEN "C05.convert: a searchable module was created that is no quantisation point of the dataflow"
     ELSE IF SuBad(t) # {} THEN "C05.summary node " \o Str(Least(SuBad(t))) \o ": summary() has no usable entry"
+    ELSE IF t.frame_changed # ""
+         THEN "C05.frame: reading the cost changed the state of the model (" \o t.frame_changed
+                  \o "): every tensor of state_dict(), the features calculators and the layer attributes must be the same before and after get_cost()"
     ELSE IF ~AllHot(t)
          THEN IF TS(t) = "soft" THEN "ok"         \* soft coefficients: the cost is a mixture, nothing is claimed
               ELSE "C05.hard: after a forward pass in a hard-sampling mode (" \o TS(t) \o ") the sampled coefficients are not one-hot"
